@@ -187,4 +187,59 @@ theorem countBits_eq (v : Nat) :
   unfold QRRef.countBits QRPack.countWidth
   by_cases h9 : v ≤ 9 <;> by_cases h26 : v ≤ 26 <;> simp [h9, h26] <;> omega
 
+/-! ### a content that fits the symbol also fits its character count indicator -/
+
+theorem packNumeric_length : ∀ ds : List Nat,
+    (QRRef.packNumeric ds).length =
+      10 * (ds.length / 3) + (if ds.length % 3 = 0 then 0 else if ds.length % 3 = 1 then 4 else 7)
+  | a :: b :: c :: rest => by
+    unfold QRRef.packNumeric
+    rw [List.length_append, QRRef.toBitsBE_length, packNumeric_length rest]
+    simp only [List.length_cons]
+    have e1 : (rest.length + 1 + 1 + 1) / 3 = rest.length / 3 + 1 := by omega
+    have e2 : (rest.length + 1 + 1 + 1) % 3 = rest.length % 3 := by omega
+    simp only [e1, e2]; omega
+  | [a, b] => by unfold QRRef.packNumeric; rw [QRRef.toBitsBE_length]; simp
+  | [a] => by unfold QRRef.packNumeric; rw [QRRef.toBitsBE_length]; simp
+  | [] => rfl
+
+theorem packAlnum_length : ∀ cs : List Nat,
+    (QRRef.packAlnum cs).length = 11 * (cs.length / 2) + 6 * (cs.length % 2)
+  | a :: b :: rest => by
+    unfold QRRef.packAlnum
+    rw [List.length_append, QRRef.toBitsBE_length, packAlnum_length rest]
+    simp only [List.length_cons]
+    have e1 : (rest.length + 1 + 1) / 2 = rest.length / 2 + 1 := by omega
+    have e2 : (rest.length + 1 + 1) % 2 = rest.length % 2 := by omega
+    rw [e1, e2]; omega
+  | [a] => by unfold QRRef.packAlnum; rw [QRRef.toBitsBE_length]; simp
+  | [] => rfl
+
+theorem packKanji_length : ∀ ps : List (Nat × Nat), (QRPack.packKanji ps).length = 13 * ps.length
+  | [] => rfl
+  | (l, t) :: ps => by
+    unfold QRPack.packKanji
+    rw [List.length_append, natToBits_length, packKanji_length ps, List.length_cons]; omega
+
+/-- for every (version, level) the data capacity bounds the number of characters of each mode below the
+    range of that version's character count indicator (Table 3 is wide enough for Table 7) -/
+def capOK (v : Nat) (ec : QRRef.EC) : Bool :=
+  let dc := QRRef.dataCodewords v ec
+  decide (3 * (8 * dc / 10) + 2 < 2 ^ QRRef.countBits .numeric v) &&
+  decide (2 * (8 * dc / 11) + 1 < 2 ^ QRRef.countBits .alnum v) &&
+  decide (dc < 2 ^ QRRef.countBits .byte v) &&
+  decide (8 * dc / 13 < 2 ^ QRRef.countBits .kanji v)
+
+theorem capOK_all : ∀ v ∈ List.range 40, ∀ ec ∈ QRRef.EC.all, capOK (v + 1) ec = true := by decide +kernel
+
+theorem cap_facts (v : Nat) (h1 : 1 ≤ v) (h40 : v ≤ 40) (ec : QRRef.EC) :
+    3 * (8 * QRRef.dataCodewords v ec / 10) + 2 < 2 ^ QRRef.countBits .numeric v ∧
+    2 * (8 * QRRef.dataCodewords v ec / 11) + 1 < 2 ^ QRRef.countBits .alnum v ∧
+    QRRef.dataCodewords v ec < 2 ^ QRRef.countBits .byte v ∧
+    8 * QRRef.dataCodewords v ec / 13 < 2 ^ QRRef.countBits .kanji v := by
+  have h := capOK_all (v - 1) (List.mem_range.mpr (by omega)) ec (by cases ec <;> decide)
+  rw [show v - 1 + 1 = v by omega] at h
+  unfold capOK at h
+  simpa only [Bool.and_eq_true, decide_eq_true_eq, and_assoc] using h
+
 end Gzx.QRComp
